@@ -56,6 +56,10 @@ def run(res):
             nsops = [j for j in range(6, len(ops)) if ops[j].split()[0] in ("remove", "rename", "mkdir", "comment", "access") and counts[j] > 2]
             rng.shuffle(nsops)
             first = [(j, k) for j in nsops[:8 if res.tier == "quick" else 40] for k in range(counts[j])]
+            # listings walk every hash chain: each header read of a listing (chain heads AND followers) is made to fail in turn
+            lists = [j for j in range(6, len(ops)) if ops[j].split()[0] == "list" and counts[j] > 2]
+            lists.sort(key=lambda j: -counts[j])
+            first += [(j, k) for j in lists[:2 if res.tier == "quick" else 8] for k in range(min(counts[j], 40))]
             cand = first + [c for c in cand if c not in set(first)]
             per_here = max(per, len(first))
         elif prof in ("seqread", "seekread"):
